@@ -1209,10 +1209,15 @@ pub fn kvs_crash(seed: u64, worker: usize, slot: &Slot) {
                 });
                 if !matches {
                     let class = if candidates.len() == 1 { "acknowledged-state-not-recovered" } else { "neither-before-nor-after-the-write-in-flight" };
+                    // every reopen of an image is a recovery: known defect F-C01-1 / F-C02-1
+                    let (prefix, why) = match recovery_misorder_signature(&re, &iroot) {
+                        Some(m) => ("misordered-levels-from-reopen:", format!(" [{m}]")),
+                        None => ("", String::new()),
+                    };
                     violation(
-                        &format!("{class}:{}", match persist { Persist::A => "A", Persist::BNone => "B0", Persist::BSome(_) => "Bn" }),
+                        &format!("{prefix}{class}:{}", match persist { Persist::A => "A", Persist::BNone => "B0", Persist::BSome(_) => "Bn" }),
                         format!(
-                            "cut {k} of {} model {persist:?}: owner {t} recovered {:?}; acknowledged operations {acked} of {}, in flight: {}",
+                            "cut {k} of {} model {persist:?}: owner {t} recovered {:?}; acknowledged operations {acked} of {}, in flight: {}{why}",
                             trace.len(),
                             got.iter().map(|(k, v)| (String::from_utf8_lossy(k).to_string(), *v)).collect::<Vec<_>>(),
                             log.len(),
@@ -1268,6 +1273,57 @@ fn recovery_merged_levels(before: &Levels, after: &Levels) -> bool {
         }
     }
     false
+}
+
+/// Signature of the known recovery defect F-C01-1 on a store that has just been opened (same rule
+/// as storesim's `recovery_misorder_signature`): a level with two key-touching files whose
+/// timestamp ranges interleave, and a point lookup through the tree that disagrees with the
+/// newest version present in the tree's own files.
+fn recovery_misorder_signature(kvs: &KeyValueStore, dir: &std::path::Path) -> Option<String> {
+    use sst::Cursor;
+    let levels = kvs.verif_tree().verif_levels();
+    let mut pair = None;
+    'outer: for (li, l) in levels.iter().enumerate() {
+        for a in 0..l.len() {
+            for b in a + 1..l.len() {
+                let (fa, fb) = (&l[a], &l[b]);
+                if fa.1 <= fb.2 && fb.1 <= fa.2 && fa.3 <= fb.4 && fb.3 <= fa.4 {
+                    pair = Some(format!("L{li} holds {} ts{}..{} and {} ts{}..{}", &fa.0.hexdigest()[..8], fa.3, fa.4, &fb.0.hexdigest()[..8], fb.3, fb.4));
+                    break 'outer;
+                }
+            }
+        }
+    }
+    let pair = pair?;
+    let mut newest: BTreeMap<Vec<u8>, (u64, Option<Vec<u8>>)> = BTreeMap::new();
+    for l in levels.iter() {
+        for f in l.iter() {
+            let p = dir.join("sst").join(format!("{}.sst", f.0.hexdigest()));
+            let t = sst::Sst::<sst::file_manager::FileHandle>::new(sst::SstOptions::default(), &p).ok()?;
+            let mut c = t.cursor();
+            c.seek_to_first().ok()?;
+            while c.next().is_ok() {
+                match c.key_value() {
+                    Some(kv) => {
+                        let newer = newest.get(kv.key).map(|(t, _)| *t < kv.timestamp).unwrap_or(true);
+                        if newer {
+                            newest.insert(kv.key.to_vec(), (kv.timestamp, kv.value.map(|v| v.to_vec())));
+                        }
+                    }
+                    None => break,
+                }
+            }
+        }
+    }
+    for (k, (ts, v)) in newest.iter() {
+        let mut tomb = false;
+        if let Ok(got) = kvs.verif_tree().load(k, &mut tomb) {
+            if got != *v {
+                return Some(format!("{pair}; lookup of {:?} disagrees with the newest version @{ts} in the tree's files", String::from_utf8_lossy(k)));
+            }
+        }
+    }
+    None
 }
 
 fn dump_levels(kvs: &KeyValueStore, dir: &std::path::Path) {
